@@ -30,6 +30,7 @@ WRAP = {
     "feat_con_idt_sum": lambda v: math.log(1 + v) * 5,
     "feat_con_idt_sum_75perc": lambda v: math.log(1 + v) / 8,
     "feat_con_idt_spike_area": lambda v: math.log(1 + v) * 20,
+    "feat_con_idt_maxima_75perc": lambda v: math.log(1 + v) * 2,
     "feat_con_apr_flatness": lambda v: v,
     "feat_con_apr_size": lambda v: v,
 }
@@ -72,6 +73,9 @@ def stub_case(rng):
     n = rng.choice([30, 60, 90, 140, 220])
     x = np.arange(n, 0, -1, dtype=float) * rng.choice([1, 3]) - rng.choice([0, 7, 40])
     cp_i = int(n * rng.uniform(0.15, 0.85))
+    if rng.random() < 0.25:
+        # contact point next to either end of the segment (degenerate index arithmetic of the 75 % features)
+        cp_i = rng.choice([0, 1, 2, n - 1, n - 2, n - 3, n - 4, n - 6])
     cp = float(x[cp_i]) + rng.choice([0.0, 0.5, -0.5])
     d = np.clip(cp - x, 0, None)
     amp = rng.choice([200.0, 4000.0])
@@ -387,8 +391,7 @@ def values_tie(ctx, count):
 
 def run(ctx):
     ctx.trusted = TRUST_COMMON + [
-        "hand-written model lean/Nanite/Model/Features.lean of 14 of the 15 features (feat_con_idt_maxima_75perc is "
-        "not modelled) on an approach segment without NaN in the fit, and of get_feature_names / compute_features "
+        "hand-written model lean/Nanite/Model/Features.lean of all 15 features on an approach segment without NaN in the fit, and of get_feature_names / compute_features "
         "ordering; tied on every run by calling the real feature methods in-process on integer-valued stub datasets "
         "and the model at exact rationals on the same arrays",
         "library routines are parameters of the theorems: scipy.ndimage.gaussian_filter1d is assumed homogeneous "
@@ -398,7 +401,7 @@ def run(ctx):
     ctx.rule = ("fitted synthetic curves (5 shipped models x noise x spikes x adhesion x short / long segments x fit "
                 "ranges) and recorded good / bad curves x {full request, random name subsets x 6 which_type forms, "
                 "2 force scale factors, retract perturbation}; every unfitted / unsuccessful state; integer-valued stub "
-                "datasets (plain, spikes, tilt, bump, decreasing, flat) x 14 modelled features vs the Lean model; all "
+                "datasets (plain, spikes, tilt, bump, decreasing, flat) x 15 features vs the Lean model; all "
                 "which_type forms (strings, lists in every order, duplicates) x name subsets vs the Lean model; "
                 "non-trivial = distinct (curve / arrays, request)")
     ctx.build(MODS, clean=(ctx.tier == "thorough"))
@@ -407,7 +410,7 @@ def run(ctx):
         ctx.leanchecker(["Nanite.Props.C17"])
     names = feature_names()
     missing = [n for n in MODELLED if n not in names]
-    extra = [n for n in names if n not in MODELLED + ["feat_con_idt_maxima_75perc"]]
+    extra = [n for n in names if n not in MODELLED]
     if missing or extra:
         ctx.broken.append({"kind": "model-out-of-date", "missing_in_code": missing, "not_modelled": extra})
     rng = ctx.rng
